@@ -422,6 +422,12 @@ func run(c *lib.Ctx) {
 	if c.Mine(1) {
 		e.memoryPass()
 	}
+	if c.Mine(2) {
+		e.savedPass()
+	}
+	if c.Mine(3) {
+		e.flagsPass()
+	}
 }
 
 // restartPass writes the file under a configuration that ignores nothing,
@@ -649,6 +655,134 @@ func (e *env) memoryPass() {
 	}
 }
 
+// flagsPass: the ignore flags of a persistent client set through the clients
+// API, each alone, both, and switched off again: what the query log and the statistics are then told about the
+// client must be the flags as set.
+func (e *env) flagsPass() {
+	c := e.c
+	a, err := srv.Build(&srv.Spec{Mode: filtering.BlockingModeDefault, ProtectionEnabled: true, FilteringEnabled: true,
+		Clients: []srv.ClientSpec{{Name: "kid", IDs: []string{"10.0.0.1"}}}})
+	if err != nil {
+		panic(err)
+	}
+	defer a.Close()
+	vc := home.VerifNewClients(a.Clients, a.Server)
+	h := handlers{"POST /control/clients/update": vc.Handler("update")}
+	wantQ, wantS := false, false
+	for _, step := range []struct{ q, s string }{{"", "true"}, {"true", ""}, {"false", "false"}, {"true", "true"}, {"", "false"}, {"false", ""}, {"", ""}} {
+		// An absent key means "not ignored": the handlers build the client from
+		// the request alone.
+		flags := ""
+		wantQ, wantS = step.q == "true", step.s == "true"
+		if step.q != "" {
+			flags += `,"ignore_querylog":` + step.q
+		}
+		if step.s != "" {
+			flags += `,"ignore_statistics":` + step.s
+		}
+		body := `{"name":"kid","data":{"name":"kid","ids":["10.0.0.1"],"use_global_settings":true,"use_global_blocked_services":true` + flags + `}}`
+		code, resp := h.call(http.MethodPost, "/control/clients/update", body)
+		c.Count("evals", 2)
+		cs := caseC{Conf: config{Client: "flags:api"}, Obs: body}
+		if code != http.StatusOK {
+			c.EngineError(fmt.Sprintf("flags pass: clients/update answered %d %s", code, resp))
+			return
+		}
+		qc, ferr := vc.FindMultiple([]string{"10.0.0.1"})
+		if ferr != nil || qc == nil {
+			c.EngineError(fmt.Sprintf("flags pass: client lookup failed: %v", ferr))
+			return
+		}
+		if qc.IgnoreQueryLog != wantQ {
+			c.Violation("client-flag-lost:ignore_querylog", fmt.Sprintf("after POST /control/clients/update %s the query log is told ignore=%v for the client, want %v", body, qc.IgnoreQueryLog, wantQ), cs)
+			return
+		}
+		if count := vc.ShouldCount([]string{"10.0.0.1"}); count == wantS {
+			c.Violation("client-flag-lost:ignore_statistics", fmt.Sprintf("after POST /control/clients/update %s the statistics are told count=%v for the client, want %v", body, count, !wantS), cs)
+			return
+		}
+	}
+	c.Distinct("nontrivial", "flags")
+}
+
+// savedPass: an ignore list changed through the configuration API must also
+// be what the configuration writer is handed: package home writes the file
+// from inside the ConfigModified callback by asking each module for its
+// current settings, and that is what a restart loads.
+func (e *env) savedPass() {
+	c := e.c
+	dir, err := os.MkdirTemp(e.dir, "c08s-")
+	if err != nil {
+		panic(err)
+	}
+	defer os.RemoveAll(dir)
+	qh, sh := handlers{}, handlers{}
+	var ql querylog.QueryLog
+	var st stats.Interface
+	var qSaved, sSaved []string
+	qCalls, sCalls := 0, 0
+	empty1, _ := aghnet.NewIgnoreEngine(nil)
+	empty2, _ := aghnet.NewIgnoreEngine(nil)
+	ql, err = querylog.New(querylog.Config{
+		Logger: srv.Discard, Ignored: empty1, Anonymizer: aghnet.NewIPMut(nil), HTTPRegister: qh.reg,
+		ConfigModified: func() {
+			qCalls++
+			var qc querylog.Config
+			ql.WriteDiskConfig(&qc)
+			qSaved = nil
+			if qc.Ignored != nil {
+				qSaved = qc.Ignored.Values()
+			}
+		},
+		FindClient: func([]string) (*querylog.Client, error) { return nil, nil },
+		BaseDir:    dir, RotationIvl: 24 * time.Hour, MemSize: 100, Enabled: true, FileEnabled: true,
+	})
+	if err != nil {
+		panic(err)
+	}
+	st, err = stats.New(stats.Config{
+		Logger: srv.Discard, HTTPRegister: sh.reg, Ignored: empty2,
+		ConfigModified: func() {
+			sCalls++
+			var sc stats.Config
+			st.WriteDiskConfig(&sc)
+			sSaved = nil
+			if sc.Ignored != nil {
+				sSaved = sc.Ignored.Values()
+			}
+		},
+		ShouldCountClient: func([]string) bool { return true },
+		Filename:          filepath.Join(dir, "stats.db"), Limit: 24 * time.Hour, Enabled: true,
+	})
+	if err != nil {
+		panic(err)
+	}
+	defer st.Close()
+	querylog.VerifC08InitWeb(ql)
+	stats.VerifC08InitWeb(st)
+	for i, list := range [][]string{{"saved-one.test"}, {"saved-two.test", "||x.test^"}, {}} {
+		lj := jsonStr(append([]string{}, list...))
+		code, body := sh.call(http.MethodPut, "/control/stats/config/update", `{"enabled":true,"interval":86400000,"ignored":`+lj+`}`)
+		c.Count("evals", 1)
+		cs := caseC{Conf: config{Client: "saved:statistics", StatsIgnore: list}}
+		if code != http.StatusOK {
+			c.EngineError(fmt.Sprintf("saved pass: stats config update answered %d %s", code, body))
+		} else if sCalls != i+1 || jsonStr(append([]string{}, sSaved...)) != lj {
+			c.Violation("saved-configuration-differs:statistics", fmt.Sprintf("PUT /control/stats/config/update set the ignore list %s; the settings handed to the configuration writer (%d save requests) hold %v: a restart brings the previous list back", lj, sCalls, sSaved), cs)
+		}
+		code, body = qh.call(http.MethodPut, "/control/querylog/config/update", `{"enabled":true,"interval":86400000,"anonymize_client_ip":false,"ignored":`+lj+`}`)
+		c.Count("evals", 1)
+		cs = caseC{Conf: config{Client: "saved:querylog", QLogIgnore: list}}
+		if code != http.StatusOK {
+			c.EngineError(fmt.Sprintf("saved pass: querylog config update answered %d %s", code, body))
+		} else if qCalls != i+1 || jsonStr(append([]string{}, qSaved...)) != lj {
+			c.Violation("saved-configuration-differs:querylog", fmt.Sprintf("PUT /control/querylog/config/update set the ignore list %s; the settings handed to the configuration writer (%d save requests) hold %v: a restart brings the previous list back", lj, qCalls, qSaved), cs)
+		}
+	}
+	c.Distinct("nontrivial", "saved")
+	_ = ql.Shutdown(context.Background())
+}
+
 func replay(c *lib.Ctx, raw json.RawMessage) string {
 	srv.Quiet()
 	var cs caseC
@@ -660,6 +794,10 @@ func replay(c *lib.Ctx, raw json.RawMessage) string {
 		e.restartPass()
 	} else if strings.HasPrefix(cs.Conf.Client, "memory:") {
 		e.memoryPass()
+	} else if strings.HasPrefix(cs.Conf.Client, "saved:") {
+		e.savedPass()
+	} else if strings.HasPrefix(cs.Conf.Client, "flags:") {
+		e.flagsPass()
 	} else {
 		e.runConfig(&cs.Conf, []request{cs.Req})
 	}
@@ -689,7 +827,7 @@ func main() {
 				"distinct_cells":      m.Distinct["cells"],
 				"positives_logged":    m.Counters["positives_logged"],
 				"positives_counted":   m.Counters["positives_counted"],
-				"rule": "13 (query-log ignore list, statistics ignore list) pairs over {none, plain name, ||rule^, wildcard, root |.^} x anonymisation {off, on at start, switched on through the config API} x persistent client kind {none, IP, CIDR, MAC via DHCP, ClientID} x ignore flags x ANY-refusal; each x 43 requests (4 name spellings x 5 client addresses incl. IPv6 and 4-in-6 x with/without ClientID, ANY queries, root query); after every single request the memory buffer (API), the flushed querylog.json, the API again and /control/stats are read and then cleared. Oracle: ignored name/client => nothing in its subsystem; anonymisation on => every address has its last 16/80 bits zero; restart pass: entries recorded earlier are hidden when the current configuration ignores their name/client. distinct_nontrivial = distinct (configuration, request) where something must be suppressed or anonymised",
+				"rule":                "13 (query-log ignore list, statistics ignore list) pairs over {none, plain name, ||rule^, wildcard, root |.^} x anonymisation {off, on at start, switched on through the config API} x persistent client kind {none, IP, CIDR, MAC via DHCP, ClientID} x ignore flags x ANY-refusal; each x 43 requests (4 name spellings x 5 client addresses incl. IPv6 and 4-in-6 x with/without ClientID, ANY queries, root query); after every single request the memory buffer (API), the flushed querylog.json, the API again and /control/stats are read and then cleared. Oracle: ignored name/client => nothing in its subsystem; anonymisation on => every address has its last 16/80 bits zero; restart pass: entries recorded earlier are hidden when the current configuration ignores their name/client. distinct_nontrivial = distinct (configuration, request) where something must be suppressed or anonymised",
 			}
 		},
 		Assumptions: []string{"ignore-rule matching delegated to urlfilter", "a 4-in-6 source address is the same client as its IPv4 form", "entries recorded anonymised cannot be attributed to a client afterwards: the restart pass for client flags runs with anonymisation off"},
